@@ -254,6 +254,8 @@ func run(c *Case) *vkit.Outcome {
 	mcall := make([]int, len(c.Handlers))
 	evType := reflect.TypeOf(Ev{})
 
+	liveCtx, liveCancel := context.WithCancel(context.Background())
+	defer liveCancel()
 	for p := 1; p <= c.Publishes; p++ {
 		// the publish itself must not panic
 		func() {
@@ -268,8 +270,11 @@ func run(c *Case) *vkit.Outcome {
 				cancels.Store(p, cancel)
 				defer cancel()
 				ctx = c2
-			} else if p%2 == 0 {
+			} else if p%4 == 0 {
 				ctx = context.Background()
+			} else if p%2 == 0 {
+				// a context that can be cancelled but stays live for the whole case
+				ctx = liveCtx
 			}
 			switch {
 			case c.Via == "any" && ctx != nil:
